@@ -283,6 +283,83 @@ def check_cell(case, ctx):
     return viol
 
 
+# ---- the dotted path is resolved when the patch is activated, not when the patcher is built ------------------
+
+def rebind_cells(tier):
+    for t, r, a in itertools.product(["function", "method", "classmethod", "staticmethod"], ["default", "function", "callable_object"], ["with", "decorator", "start_stop"]):
+        yield {"target": t, "replacement": r, "activation": a}
+
+
+def check_rebind(case, ctx):
+    from asynq.mock_ import patch
+    engine.reset_process_state()
+    target, repl, act = case["target"], case["replacement"], case["activation"]
+    mod = make_target_module()
+    name = "c19_target_mod"
+    path = {"function": name + ".fn", "method": name + ".K.m", "classmethod": name + ".K.cm", "staticmethod": name + ".K.sm"}[target]
+    rec = Recorder()
+    kw, result_fn = make_replacement(repl, "R", rec)
+    kw = dict(kw)
+    default = kw.pop("_default", False)
+    side = kw.pop("_side_effect", None)
+    viol = []
+    desc = "%s patched by dotted path (%s) with %s; the owner is re-bound between building and activating the patcher" % (target, act, repl)
+
+    def bad(clause, msg):
+        viol.append(("C19." + clause + ":" + repl, desc + ": " + msg))
+    try:
+        p = patch(path, **kw)          # built now (decorators are built at import time) ...
+        # ... then the object the path leads through is replaced (module reloaded / class swapped)
+        if target == "function":
+            mod2 = types.ModuleType(name)
+            mod2.__dict__.update(mod.__dict__)
+            sys.modules[name] = mod2
+            owner, attr = mod2, "fn"
+        else:
+            mod.K = type("K", (mod.K,), {"m": mod.K.__dict__["m"], "cm": mod.K.__dict__["cm"], "sm": mod.K.__dict__["sm"]})
+            owner, attr = mod.K, {"method": "m", "classmethod": "cm", "staticmethod": "sm"}[target]
+        original = owner.__dict__[attr]
+        inst = None if target == "function" else sys.modules[name].K("i1")
+
+        def live():
+            m = sys.modules[name]
+            return {"function": lambda: m.fn, "method": lambda: inst.m, "classmethod": lambda: m.K.cm, "staticmethod": lambda: m.K.sm}[target]()
+
+        def inside(m=None):
+            if m is not None and default:
+                m.side_effect = side
+            for pr in exercise(live, (3,), {}, result_fn, rec, prefix_for(target, repl, inst)):
+                bad("reach", pr)
+                break
+        if act == "with":
+            with p as m:
+                inside(m)
+        elif act == "decorator":
+            @p
+            def body(*extra):
+                inside(extra[0] if extra else None)
+            body()
+        else:
+            m = p.start()
+            try:
+                inside(m)
+            finally:
+                p.stop()
+        if owner.__dict__[attr] is not original:
+            bad("restore", "the attribute on the current owner is %r, not the original object" % (owner.__dict__[attr],))
+    except BaseException as e:
+        bad("activate", "%s: %s" % (type(e).__name__, str(e)[:160]))
+        try:
+            patch.stopall()
+        except Exception:
+            pass
+    finally:
+        sys.modules.pop(name, None)
+    ctx.label("rebind-target=" + target)
+    ctx.nontrivial(case)
+    return viol
+
+
 def enum_cells(tier):
     for t, r, a, e in itertools.product(TARGETS, REPLACEMENTS, ACTIVATIONS, EXITS):
         for how in ("object", "string"):
@@ -421,4 +498,5 @@ def reduce_hist(case):
 
 
 SUBS = [Sub("matrix", check_cell, enumerate=enum_cells),
+        Sub("late-binding", check_rebind, enumerate=rebind_cells),
         Sub("histories", check_hist, strategy=strat_hist, reduce=reduce_hist, examples={"quick": 1500, "thorough": 60000})]
